@@ -300,8 +300,9 @@ theorem carrier_factor_spec (c : Carrier) (t : CqlTy) (x : RustVal) (ws : Bool) 
 `MaybeEmpty`, `Vec`, set and map types, tuples, arbitrarily nested), every CQL type `t` it type-checks against
 for deserialization (`tcheck`) and is compatible with for serialization (`compat`), and every Rust value `x`
 of that type in the round-trip domain `rtOk` (UTF-8 / ASCII strings, `time` within a day, non-empty varint; set
-and map carriers on canonical content — strictly ascending keys, which is what a `BTreeSet` / `BTreeMap`
-value is; no `Some(None)`, no null / *empty* vector element — C01-F2 / C01-F9): the carrier's own serializer appends exactly
+and map carriers whose key type's order is modelled (`keyModelled`: integers, `bool`, `String`, `Vec<u8>`, `Uuid`,
+`CqlTimeuuid` with its custom order, `IpAddr`, `Counter`, `CqlTimestamp`, `Option` / `Vec` / tuples of those) on
+canonical content — strictly ascending keys, which is what a `BTreeSet` / `BTreeMap` value is; no `Some(None)`, no null / *empty* vector element — C01-F2 / C01-F9): the carrier's own serializer appends exactly
 the cell the protocol defines for its embedding, and the carrier's own typed deserializer, reading that cell
 (followed by anything), returns `x` itself — `Vec<Option<T>>` with nulls in lists and maps included. -/
 theorem typed_roundtrip (u : Bytes → Bool) (c : Carrier) (t : CqlTy) (x : RustVal) (cell rest buf : Bytes)
@@ -455,13 +456,26 @@ theorem chrono_time_roundtrip (secs frac : Int) (s0 : 0 ≤ secs) (s1 : secs < 8
     intro h; omega
 
 open ScyllaVerif.ExternalConv in
-/-- `chrono::DateTime<Utc>` ↔ `CqlTimestamp` (millisecond precision, `TryInto` path). -/
-theorem chrono_dt_roundtrip (secs millis : Int) (m0 : 0 ≤ millis) (m1 : millis < 1000) :
-    cqlToChronoDt (chronoDtToCql secs millis) = (secs, millis) := by
-  unfold cqlToChronoDt chronoDtToCql
-  have e1 : (secs * 1000 + millis) / 1000 = secs := by omega
-  have e2 : (secs * 1000 + millis) % 1000 = millis := by omega
-  rw [e1, e2]
+/-- `chrono::DateTime<Utc>` ↔ `CqlTimestamp` (millisecond precision, `TryInto` path): inverse on chrono's whole
+range, `ValueOverflow` outside it; `BigDecimal`'s `i64` exponent is accepted exactly when it fits `i32`. -/
+theorem chrono_dt_roundtrip (secs millis : Int) (m0 : 0 ≤ millis) (m1 : millis < 1000)
+    (h0 : chronoDtMinMs ≤ secs * 1000 + millis) (h1 : secs * 1000 + millis ≤ chronoDtMaxMs) :
+    cqlToChronoDt (chronoDtToCql secs millis) = some (secs, millis) ∧
+    (∀ ms : Int, ms < chronoDtMinMs ∨ chronoDtMaxMs < ms → cqlToChronoDt ms = none) ∧
+    (∀ s : Int, (bigDecimalScale s).isSome ↔ (-(2 ^ 31) ≤ s ∧ s < 2 ^ 31)) := by
+  refine ⟨?_, ?_, ?_⟩
+  · unfold cqlToChronoDt chronoDtToCql
+    have e1 : (secs * 1000 + millis) / 1000 = secs := by omega
+    have e2 : (secs * 1000 + millis) % 1000 = millis := by omega
+    simp only [e1, e2]
+    simp [h0, h1]
+  · intro ms h
+    unfold cqlToChronoDt
+    have : ¬ (chronoDtMinMs ≤ ms ∧ ms ≤ chronoDtMaxMs) := by omega
+    simp [this]
+  · intro s
+    unfold bigDecimalScale
+    split <;> simp_all
 
 open ScyllaVerif.ExternalConv in
 /-- The external carriers' OWN decoders (`deserialize/value.rs:606-756`) invert the encoders on the external
@@ -489,11 +503,7 @@ theorem external_decode_roundtrip :
     simp only [this]
     simp [h0, h1]
   · intro secs millis m0 m1 h0 h1
-    unfold deChronoDt chronoDtToCql
-    have e1 : (secs * 1000 + millis) / 1000 = secs := by omega
-    have e2 : (secs * 1000 + millis) % 1000 = millis := by omega
-    simp only [e1, e2]
-    simp [h0, h1]
+    exact (chrono_dt_roundtrip secs millis m0 m1 h0 h1).1
   · intro jd h0 h1
     exact (time_date_roundtrip jd h0 h1).2.2
   · intro secs nanos h0 h1 n0 n1
